@@ -24,7 +24,7 @@ LEVEL_TEXT = 'Model side proved, runtime side sampled (partial). Theorems: every
 LEVEL_NOTE = 'Trusted: Lean kernel + standard axioms; that dill really restores the object graph (CMA-ES internals, sampler state, SHADE memory) is runtime behaviour no model can exhibit — it is checked differentially on sampled runs, not proved. In the model a snapshot is the state itself.'
 TECHNIQUE = 'Lean 4 theorems (invariants inductive from any state => restored trees keep the tree invariants) + snapshot/restore differential on real runs at every boundary'
 RULE = "case = (configuration, boundary k): dump+load at that boundary; configurations as in the traced-run generator but untraced (objective = picklable callable or lambda); non-trivial = tree with >= 2 demes at the snapshot point; distinct by (configuration hash, k)"
-ASSUMPTIONS = ["dill can serialise the objective (module-level callable or lambda)", "continuation of live and loaded tree need not be identical (dill copies np.random.randn by value for CMA-ES)"]
+ASSUMPTIONS = ['dill can serialise the objective (module-level callable or lambda)', 'for CMA-ES levels the continuation of the live and of the restored tree need not coincide (dill copies np.random.randn by value into the restored strategy); for every other engine mix one step of both from equal global generator states must give the same tree']
 EXPLANATION = "differential snapshot/restore on real runs; see LEVEL_TEXT"
 
 
@@ -81,12 +81,23 @@ def one_config(spec, sl, kind):
     def viol(sig, detail, k):
         sl.violations.append({"signature": sig, "detail": detail, "replay": {"spec": spec, "boundary": k, "objective_kind": kind}})
 
+    # engines whose random source is the global NumPy / stdlib generator (or a generator pickled by value):
+    # from equal generator states the restored tree must do what the live tree does.  CMA-ES is left out:
+    # dill copies `np.random.randn` by value into the restored strategy object.
+    deterministic = not any(L["engine"] in ("cma", "cmaw", "cmas") for L in spec["levels"])
+    expect_next = None
     try:
         for k in range(spec["max_steps"] + 1):
             if k > 0:
                 if tree._gsc(tree):
                     break
                 tree.run_step()
+                if expect_next is not None:
+                    now = snap(tree)
+                    if now != expect_next[1]:
+                        diff = [d["id"] for a, d in zip(now["demes"], expect_next[1]["demes"]) if a != d]
+                        viol("C19/restored-tree-behaves-differently", f"the tree restored at boundary {expect_next[0]} and the live tree, both run one step from the same random-generator states, differ afterwards (demes {diff[:4]}; {len(expect_next[1]['demes'])} vs {len(now['demes'])} demes; evaluations {expect_next[1]['n_evals']} vs {now['n_evals']}): the snapshot lost part of the state", expect_next[0])
+                    expect_next = None
             live0 = snap(tree)
             st_np = np.random.get_state()[1].copy()
             st_py = random.getstate()
@@ -125,11 +136,14 @@ def one_config(spec, sl, kind):
                     return sum(c.n for c in seen.values())
                 c0, e0 = calls(loaded), loaded.n_evaluations
                 b0 = loaded.best_individual.fitness
-                for _ in range(2):
+                rs_np, rs_py = np.random.get_state(), random.getstate()
+                for it in range(2):
                     if loaded._gsc(loaded):
                         break
                     loaded.run_step()
                     s2 = R.snap_tree(loaded, order + [d.id for _, d in loaded.all_demes if d.id not in order])
+                    if it == 0 and deterministic:
+                        expect_next = (k, s2)
                     for p in structural(s2, spec):
                         viol("C19/continuation-structure", f"loaded at boundary {k}, run further: {p}", k)
                     b1 = loaded.best_individual.fitness
@@ -138,6 +152,9 @@ def one_config(spec, sl, kind):
                     b0 = b1
                 if not spec.get("cutoff") and loaded.n_evaluations - e0 != calls(loaded) - c0:
                     viol("C19/continuation-accounting", f"loaded at boundary {k}: counters grew by {loaded.n_evaluations - e0}, objective was invoked {calls(loaded) - c0} times", k)
+                # the live tree takes its next step from the generator states the restored one started from
+                np.random.set_state(rs_np)
+                random.setstate(rs_py)
     finally:
         if os.path.exists(fn):
             os.remove(fn)
